@@ -28,7 +28,7 @@
 (* set of deviation rules that explains a difference.  A difference is a   *)
 (* CANDIDATE; the verdict comes from running the real planner (binding).   *)
 (*                                                                         *)
-(* Part 3 (EVALUATOR): RunEval(q, db, cx, part, F): how the statement(s)   *)
+(* Part 3 (EVALUATOR): RunEval(q, db, cx, part, ph, F): how the statement(s)*)
 (* of the plan are executed (reader/traceql/transpiler:                    *)
 (* complexity_evaluator.go, simple_request_processor.go,                   *)
 (* complex_request_processor.go).  A complexity query decides between ONE  *)
@@ -36,7 +36,8 @@
 (* i-th over the traces with cityHash64(trace_id) % n = i plus the traces  *)
 (* answered by the previous portion; the answer of the last portion is the *)
 (* answer of the request.  TLC checks that the merged answer is what the   *)
-(* definition accepts, for every split of the traces over the portions.    *)
+(* definition accepts, for every split of the traces over the portions and *)
+(* for both sub-second phases ph of the stored timestamps (see NextFrom).   *)
 (***************************************************************************)
 EXTENDS Integers, Sequences, FiniteSets, TLC
 
@@ -431,30 +432,41 @@ RangeOf(p) == {p[j] : j \in DOMAIN p}
 \* ProcessComplexReqIteration: the window start of the next portion.
 \* As designed every portion evaluates the request's own window.
 \* [portion_from] (as written): when a portion answers exactly `limit` traces, the next one
-\* starts at the earliest start_time_unix_nano of the answered traces (min over ALL spans of a
-\* trace, tempo_traces is not bounded by the window): older spans of a trace that is only seen
+\* starts at a start_time_unix_nano of the answered traces (min over ALL spans of a trace,
+\* tempo_traces is not bounded by the window): older spans of a trace that is only seen
 \* by a later portion are cut off, and a trace that began before the window moves the start
 \* BEFORE the request's window.
-NextFrom(q, db, F, p, from) ==
+\* WHICH start: the loop over the answered traces (in answer order) is
+\*     if from.Nanosecond() == 0 || from.After(start) { from = start }
+\* with `from` initially the zero time: "no start taken yet" is recognised by a zero
+\* sub-second part.  Time is therefore not just the tick: `ph` is the SUB-SECOND PHASE of the
+\* stored span timestamps of the case (0: every span starts on a whole second; 1: every span
+\* starts off the second, by the same offset < 1 tick, so that the order of the ticks and the
+\* window membership - the window bounds of the API are whole seconds - are those of the ticks).
+\*   ph = 0: every start looks like "nothing taken yet": the start of the LAST answered trace;
+\*   ph = 1: the comparison decides: the EARLIEST start of the answered traces.
+\* The definition (Eval) and the plan do not depend on the phase.
+Phases == {0, 1}
+NextFrom(q, db, F, p, from, ph) ==
   IF "portion_from" \in F /\ Len(p) = q.limit /\ Len(p) > 0
-  THEN MinOf({K2(db)[p[j]] : j \in DOMAIN p})
+  THEN IF ph = 0 THEN K2(db)[p[Len(p)]] ELSE MinOf({K2(db)[p[j]] : j \in DOMAIN p})
   ELSE from
 
-RECURSIVE PortionStep(_, _, _, _, _, _, _, _)
-PortionStep(q, db, F, n, part, i, cached, from) ==
+RECURSIVE PortionStep(_, _, _, _, _, _, _, _, _)
+PortionStep(q, db, F, n, part, i, cached, from, ph) ==
   LET vis == {ti \in Traces(db) : part[ti] = i} \cup cached
       O == PlanEval([q EXCEPT !.from = from], Hide(db, vis), F)
   IN IF i = n - 1 THEN O
      ELSE UNION {(IF o.err # NoErr THEN {o}       \* a failing portion fails the request
-                  ELSE UNION {PortionStep(q, db, F, n, part, i + 1, nx[1], nx[2]) :
-                                nx \in {<<RangeOf(p), NextFrom(q, db, F, p, from)>> : p \in o.seqs}})
+                  ELSE UNION {PortionStep(q, db, F, n, part, i + 1, nx[1], nx[2], ph) :
+                                nx \in {<<RangeOf(p), NextFrom(q, db, F, p, from, ph)>> : p \in o.seqs}})
                  : o \in O}
 
 \* the set of answers of the request
-RunEval(q, db, cx, part, F) ==
+RunEval(q, db, cx, part, ph, F) ==
   LET n == IF Splittable(q) THEN Portions(cx) ELSE 0
   IN IF n = 0 THEN PlanEval(q, db, F)
-     ELSE PortionStep(q, db, F, n, part, 0, {}, q.from)
+     ELSE PortionStep(q, db, F, n, part, 0, {}, q.from, ph)
 
 (***************************************************************************)
 (* COMPARISON, on what a client can observe: the sequence of traces in the *)
@@ -495,8 +507,8 @@ ExplainWith(q, db, d, CF) ==
   IN IF good = {} THEN {"UNEXPLAINED"}
      ELSE CHOOSE S \in good : \A S2 \in good : Cardinality(S) <= Cardinality(S2)
 Explain(q, db) == ExplainWith(q, db, Eval(q, db), AllFlags)
-ExplainRun(q, db, cx, part, d, CF) ==
-  LET good == {S \in SUBSET (ApplicableRun(q, cx) \cap CF) : ConformsAll(RunEval(q, db, cx, part, CF \ S), d, q, db)}
+ExplainRun(q, db, cx, part, ph, d, CF) ==
+  LET good == {S \in SUBSET (ApplicableRun(q, cx) \cap CF) : ConformsAll(RunEval(q, db, cx, part, ph, CF \ S), d, q, db)}
   IN IF good = {} THEN {"UNEXPLAINED"}
      ELSE CHOOSE S \in good : \A S2 \in good : Cardinality(S) <= Cardinality(S2)
 
